@@ -78,7 +78,7 @@ func genContFile(c *core.Ctx, i int, codecIdx int, maxRecs int) *contFile {
 		for k := range sync {
 			sync[k] = byte(r.IntN(256))
 		}
-		f, err := refavro.WriteContainer([]byte(ds.S.JSON()), ds.S, blocks, &gen.RandChooser{R: r, Style: r.IntN(4)}, refavro.WriteOpts{Codec: codec, Sync: sync})
+		f, err := refavro.WriteContainer([]byte(ds.S.JSON()), ds.S, blocks, &gen.RandChooser{R: r, Style: r.IntN(4)}, refavro.WriteOpts{Codec: codec, Sync: sync, MetaCodecFirst: r.IntN(2) == 0, MetaBlocks: 1 + r.IntN(2)*r.IntN(3)})
 		if err != nil {
 			panic(err)
 		}
@@ -278,6 +278,27 @@ func runC07(c *core.Ctx, i int) {
 					return
 				}
 			}
+		}
+	}
+	// 2b. two damage sites in one marker: the same mask applied to byte j and byte j+8, and the marker
+	// replaced by another well-formed 16-byte value
+	for bi, b := range cont.Blocks {
+		for j := 0; j < 8; j++ {
+			for _, m := range []byte{0x01, 0x80, 0xff} {
+				mut := append([]byte{}, cf.file...)
+				mut[b.PayloadEnd+j] ^= m
+				mut[b.PayloadEnd+j+8] ^= m
+				if !cf.mustFail(c, mut, fmt.Sprintf("block %d sync bytes %d and %d xor %#x", bi, j, j+8, m), "sync-two-sites") {
+					return
+				}
+			}
+		}
+		mut := append([]byte{}, cf.file...)
+		for j := 0; j < 16; j++ {
+			mut[b.PayloadEnd+j] = cf.file[b.PayloadEnd+(j+8)%16]
+		}
+		if !bytes.Equal(mut, cf.file) && !cf.mustFail(c, mut, fmt.Sprintf("block %d sync halves swapped", bi), "sync-two-sites") {
+			return
 		}
 	}
 	// 3. every bit of every snappy CRC
